@@ -212,7 +212,7 @@ def oracle_reactor(ctx, rng, n):
         for tn in list(case['types']):
             if rng.random() < 0.4:
                 gi.add_axial_regions(rng, case, tn, lower=rng.random() < 0.7, upper=rng.random() < 0.7)
-        gi.random_power(rng, case)
+        gi.random_power(rng, case, per_asm_mesh=rng.random() < 0.5)
         if rng.random() < 0.5:
             case['setup']['axial_mesh_size'] = rng.choice([0.05, 0.002, 1e-4, round(10 ** rng.uniform(-5, -1), 7)])
         if rng.random() < 0.3:
@@ -229,7 +229,20 @@ def oracle_reactor(ctx, rng, n):
             continue
         ctx.evals += 1
         z = [units(x) for x in r.z]
-        b = [units(x) for x in r.axial_bnds]
+        # the boundaries every plane set must contain, taken from the INPUT (not from the list the code assembled): power cells of
+        # every assembly, unrodded region bounds, requested planes, inlet and outlet
+        want = {0.0, float(case['core']['length'])}
+        for row in case['power']['rows']:
+            want.add(float(row[2]))
+            want.add(float(row[3]))
+        for t in case['types'].values():
+            for reg in t.get('AxialRegion') or []:
+                want.add(float(reg['z_lo']))
+                want.add(float(reg['z_hi']))
+        want |= set(float(x) for x in case['setup'].get('axial_plane', []))
+        b = sorted(set(units(x) for x in want))
+        if sorted(set(units(x) for x in r.axial_bnds)) != b:
+            ctx.count("boundary_list_differs_from_input")
         lim = min(r.min_dz['dz'])
         why = mesh_defect(z, b, units(r.req_dz), units(r.core_length))
         if not why and float(np.max(r.dz)) > lim * (1 + 1e-9) + 1e-12:
